@@ -6,11 +6,14 @@ package main
 
 import (
 	"bufio"
+	"bytes"
 	"encoding/binary"
 	"encoding/hex"
 	"fmt"
+	"io"
 	"math"
 	"os"
+	"testing/iotest"
 
 	"github.com/ctessum/geom"
 	ghex "github.com/ctessum/geom/encoding/hex"
@@ -201,6 +204,15 @@ func gen(seed uint64, tier string) {
 		}
 		fmt.Fprintln(out)
 	}
+	// streaming entry point wkb.Read behind readers that return short reads / data together with EOF
+	for i := 0; i < n/10; i++ {
+		fmt.Fprintf(out, "rdrt %s %s %s\n", []string{"one", "half", "dataerr", "buf"}[i%4], []string{"X", "N"}[r.Intn(2)], vproto.GeomToks(genGeom(r, 3)))
+	}
+	// histories: many rejected decodes, then a valid round trip in the same process (state that leaks on
+	// error paths must not poison later calls); one line = one replayable history
+	for _, bad := range []string{"x", "x02", "x0101", "x01ff000000", "x010700000001000000", "x0107000000020000000101000000000000000000f03f000000000000004001"} {
+		fmt.Fprintf(out, "rejthen 12000 %s N GC 2 P %s GC 1 LS 1 %s\n", bad, one, one)
+	}
 	// unsupported values (at top level and nested)
 	b := &geom.Bounds{Min: geom.Point{X: 0, Y: 0}, Max: geom.Point{X: 1, Y: 1}}
 	for _, g := range []geom.Geom{b, geom.GeometryCollection{b}, geom.GeometryCollection{geom.Point{}, geom.GeometryCollection{b}}} {
@@ -277,6 +289,49 @@ func impl() {
 				for j := range kept { // read only now, after every later call has happened
 					res += " " + "x" + hex.EncodeToString(kept[j]) + " h" + hexes[j]
 				}
+			case "rdrt":
+				kind := p.Next()
+				o := bo(p.Next())
+				g := p.Geom()
+				buf, err := wkb.Encode(g, o)
+				if err != nil {
+					res = "encerr"
+					return
+				}
+				var rd io.Reader = bytes.NewReader(buf)
+				switch kind {
+				case "one":
+					rd = iotest.OneByteReader(rd)
+				case "half":
+					rd = iotest.HalfReader(rd)
+				case "dataerr":
+					rd = iotest.DataErrReader(rd)
+				case "buf":
+					rd = bufio.NewReaderSize(rd, 16)
+				}
+				g2, err := wkb.Read(rd)
+				res = result(g2, err, "")
+			case "rejthen":
+				k := p.Int()
+				bad, err := hex.DecodeString(p.Next()[1:])
+				if err != nil {
+					panic(err)
+				}
+				rejected := 0
+				for j := 0; j < k; j++ {
+					if _, err := wkb.Decode(bad); err != nil {
+						rejected++
+					}
+				}
+				o := bo(p.Next())
+				g := p.Geom()
+				buf, err := wkb.Encode(g, o)
+				if err != nil {
+					res = "encerr"
+					return
+				}
+				g2, err := wkb.Decode(buf)
+				res = fmt.Sprintf("rejected %d ", rejected) + result(g2, err, "")
 			case "rt":
 				o := bo(p.Next())
 				g := p.Geom()
